@@ -122,12 +122,11 @@ def run_tymer(case, r):
             if not wound and op[2] is None:
                 continue   # start at current tyme needs a tymist
             d = op[1] if op[1] is not None else (mstop - mstart)
-            ret = t.start(duration=op[1], start=op[2])
+            # what start()/restart() return is not part of the statement: the period they begin is judged from the
+            # readings (elapsed, remaining, expired) right after, in judge(i) below
+            t.start(duration=op[1], start=op[2])
             mstart = op[2] if op[2] is not None else tymists[cur].tyme
             mstop = mstart + d
-            if not close(ret, mstart, exact):
-                r.fail("C08/tymer-start-return", "step %d start returned %r model %r" % (i, ret, mstart))
-                return
         elif k == "restart":
             if wound:
                 if tymists[cur].tyme >= mstop:
@@ -135,13 +134,10 @@ def run_tymer(case, r):
                 else:
                     restarts_before += 1
             d = op[1] if op[1] is not None else (mstop - mstart)
-            ret = t.restart(duration=op[1])
+            t.restart(duration=op[1])
             prev_stop = mstop
             mstart = prev_stop
             mstop = mstart + d
-            if not close(ret, prev_stop, exact):
-                r.fail("C08/tymer-restart-lossless", "step %d restart began at %r, previous stop %r" % (i, ret, prev_stop))
-                return
         elif k == "read":
             pass
         else:
@@ -176,6 +172,7 @@ def run_mono(case, r):
         last_elapsed = None
         last_expired = None
         had_read = False
+        probes = 0
         tol = 0.0 if exact else 16 * math.ulp(SCALE['mono'])
         for i, op in enumerate(case["ops"]):
             k = op[0]
@@ -196,11 +193,21 @@ def run_mono(case, r):
                 had_read = False
             elif k == "restart":
                 d = op[1] if op[1] is not None else dur
-                before_stop = m._stop
-                ret = m.restart(duration=op[1])
-                if ret != before_stop:
-                    r.fail("C08/mono-restart-lossless", "step %d restart began at %r, previous stop %r" % (i, ret, before_stop))
-                    return
+                # lossless restart judged from readings only: on a forward-only clock from the model (new start = old
+                # start + old duration); with a probe (op[2]) also after backward steps: with the clock held still,
+                # elapsed right after the restart is minus the remaining right before it
+                before_stop = (mstart + dur) if mstart is not None else None
+                probe = len(op) > 2 and op[2]
+                if probe:
+                    rem = m.remaining
+                m.restart(duration=op[1])
+                if probe:
+                    e2 = m.elapsed
+                    probes += 1
+                    if not close(e2, -rem, exact, 'mono'):
+                        r.fail("C08/mono-restart-lossless", "step %d elapsed %r right after restart, remaining before %r" % (
+                            i, e2, rem))
+                        return
                 if not close(m.duration, d, exact, 'mono'):
                     r.fail("C08/mono-restart-duration", "step %d duration %r expected %r" % (i, m.duration, d))
                     return
@@ -210,9 +217,19 @@ def run_mono(case, r):
                 mstart = before_stop if not any_back else None
                 last_elapsed = last_expired = None
                 had_read = False
-            elif k in ("elapsed", "expired", "remaining"):
-                if k == "elapsed" or k == "remaining":
+                if probe:
+                    last_elapsed = e2
+                    had_read = True
+            elif k in ("elapsed", "expired", "remaining", "remfirst"):
+                if k == "remfirst":
+                    # remaining read before anything else notices a backward step: it still is duration - elapsed
+                    rem0 = m.remaining
+                if k != "expired":
                     e = m.elapsed
+                    if k == "remfirst" and not close(rem0, m.duration - e, exact, 'mono'):
+                        r.fail("C08/mono-remaining", "step %d remaining %r read first but duration %r - elapsed %r" % (
+                            i, rem0, m.duration, e))
+                        return
                     if last_elapsed is not None and e < last_elapsed - tol:
                         r.fail("C08/mono-elapsed-decreased", "step %d elapsed %r after %r" % (i, e, last_elapsed))
                         return
@@ -245,6 +262,8 @@ def run_mono(case, r):
         r.nontrivial = nontrivial
         if any_back:
             r.labels.append("mono:backward-step")
+        if probes:
+            r.labels.append("mono:restart-probed" + ("-after-back" if any_back else ""))
         if back_after_read and nontrivial:
             r.labels.append("mono:back-after-read-then-read")
         if not exact:
@@ -298,12 +317,13 @@ def _mono(exact=True):
         st.tuples(st.just("adv"), val),
         st.tuples(st.just("back"), val),
         st.tuples(st.just("start"), optd),
-        st.tuples(st.just("restart"), optd),
+        st.tuples(st.just("restart"), optd, st.booleans()),
         st.tuples(st.just("elapsed")),
         st.tuples(st.just("elapsed")),
         st.tuples(st.just("expired")),
         st.tuples(st.just("expired")),
         st.tuples(st.just("remaining")),
+        st.tuples(st.just("remfirst")),
     ).map(list)
     return st.fixed_dictionaries({
         "k": st.just("mono"), "exact": st.just(exact), "t0": base,
